@@ -157,10 +157,11 @@ def emul_full_expr(e, l, my_eip, env, machine):
 
             if zf_w :
                 my_zf = machine.eval_expr(machine.pool[zf], {})
-                if 0xF3 in l.prefix and my_zf == 0:
-                    break
-                if 0xF2 in l.prefix and my_zf == 1:
-                    break
+                if isinstance(my_zf, ExprInt):
+                    if 0xF3 in l.prefix and my_zf.arg == 0:
+                        break
+                    if 0xF2 in l.prefix and my_zf.arg == 1:
+                        break
 
             tsc_inc += 1
         # serpillere included an emulation of TSC incrementation,
